@@ -388,3 +388,401 @@ Proof.
       destruct (IH s1 N2 Hf2 id (or_introl Hc)); tauto.
     + destruct (IH s1 N2 Hf2 id (or_intror Hc)); tauto.
 Qed.
+
+(** ** pending map *)
+
+Lemma lookup_in : forall sq p r, lookup sq p = Some r -> In (sq, r) p.
+Proof.
+  induction p as [|[k x] p IH]; intros r H; cbn [lookup] in H; [discriminate|].
+  destruct (k =? sq) eqn:E.
+  - apply N.eqb_eq in E. inversion H; subst. now left.
+  - right. now apply IH.
+Qed.
+
+Lemma lookup_none : forall sq p, lookup sq p = None <-> ~ In sq (map fst p).
+Proof.
+  induction p as [|[k x] p IH]; cbn [lookup map fst In]; [tauto|].
+  destruct (k =? sq) eqn:E.
+  - apply N.eqb_eq in E. split; [discriminate | intro H; exfalso; apply H; now left].
+  - apply N.eqb_neq in E. rewrite IH. tauto.
+Qed.
+
+Lemma in_remove_key : forall sq p k r, In (k, r) (remove_key sq p) <-> In (k, r) p /\ k <> sq.
+Proof.
+  induction p as [|[k0 x] p IH]; intros k r; cbn [remove_key In]; [tauto|].
+  destruct (k0 =? sq) eqn:E.
+  - apply N.eqb_eq in E. rewrite IH. split; [tauto|]. intros [[H|H] Hn]; [inversion H; subst; contradiction | tauto].
+  - apply N.eqb_neq in E. cbn [In]. rewrite IH. split; [|tauto].
+    intros [H|H]; [inversion H; subst; tauto | tauto].
+Qed.
+
+Lemma remove_key_absent : forall sq p, lookup sq p = None -> remove_key sq p = p.
+Proof.
+  induction p as [|[k x] p IH]; intro H; cbn [remove_key lookup] in *; [reflexivity|].
+  destruct (k =? sq); [discriminate|]. now rewrite IH.
+Qed.
+
+Lemma keys_remove_key : forall sq p k, In k (map fst (remove_key sq p)) -> In k (map fst p) /\ k <> sq.
+Proof.
+  intros sq p k H. apply in_map_iff in H. destruct H as [[k' r] [Hk Hin]]. cbn [fst] in Hk. subst k'.
+  apply in_remove_key in Hin. destruct Hin as [Hin Hne]. split; [|exact Hne].
+  apply in_map_iff. exists (k, r). split; [reflexivity | exact Hin].
+Qed.
+
+Lemma nodup_remove_key : forall sq (p : list (N * req)), NoDup (map fst p) -> NoDup (map fst (remove_key sq p)).
+Proof.
+  induction p as [|[k x] p IH]; intro H; cbn [remove_key]; [exact H|].
+  cbn [map fst] in H. inversion H as [|? ? Hk Hp]; subst.
+  destruct (k =? sq); [now apply IH|].
+  cbn [map fst]. constructor; [|now apply IH].
+  intro Hin. apply keys_remove_key in Hin. tauto.
+Qed.
+
+Lemma nodup_key_unique : forall (p : list (N * req)) sq r1 r2, NoDup (map fst p) -> In (sq, r1) p -> In (sq, r2) p -> r1 = r2.
+Proof.
+  induction p as [|[k x] p IH]; intros sq r1 r2 Hnd H1 H2; [destruct H1|].
+  cbn [map fst] in Hnd. inversion Hnd as [|? ? Hk Hp]; subst.
+  destruct H1 as [H1|H1], H2 as [H2|H2].
+  - congruence.
+  - inversion H1; subst. exfalso. apply Hk. apply in_map_iff. exists (sq, r2). split; [reflexivity | exact H2].
+  - inversion H2; subst. exfalso. apply Hk. apply in_map_iff. exists (sq, r1). split; [reflexivity | exact H1].
+  - eapply IH; eauto.
+Qed.
+
+(** ** matching: a call that returns the outcome of a response returns the outcome of the response
+    that carried the sequence number its own frame was sent with *)
+
+Definition sent_in (l : log) (sq : N) (rq : req) : Prop :=
+  exists e o, In (e, o) l /\ is_req e = Some rq /\ In (Sent (req_msg sq rq)) o.
+
+Definition pend_inv (l : log) (s : st) : Prop :=
+  forall sq rq, In (sq, rq) (pending s) -> sent_in l sq rq.
+
+Definition entry_ok (pre : log) (x : event * list out) : Prop :=
+  forall id r, In (Done id r) (snd x) -> is_local r = false ->
+  exists sq ty sz d rq, fst x = Resp sq ty sz d /\ rid rq = id /\ sent_in pre sq rq /\ r = op_result rq ty sz d.
+
+Definition log_ok (l : log) : Prop :=
+  forall pre x post, l = pre ++ x :: post -> entry_ok pre x.
+
+Lemma sent_in_mono : forall l l' sq rq, sent_in l sq rq -> sent_in (l ++ l') sq rq.
+Proof. intros l l' sq rq (e & o & H1 & H2 & H3). exists e, o. repeat split; auto. apply in_app_iff. now left. Qed.
+
+Lemma log_ok_snoc : forall l x, log_ok l -> entry_ok l x -> log_ok (l ++ [x]).
+Proof.
+  intros l x Hl Hx pre y post Heq.
+  destruct post as [|z post'] using rev_ind.
+  - apply app_inj_tail in Heq. destruct Heq as [-> ->]. exact Hx.
+  - clear IHpost'. rewrite app_comm_cons, app_assoc in Heq. apply app_inj_tail in Heq. destruct Heq as [Heq _].
+    eapply Hl. exact Heq.
+Qed.
+
+Lemma local_not_nonlocal : forall rq c, is_local (local_result rq c) = false -> False.
+Proof. intros rq c H. rewrite local_result_local in H. discriminate. Qed.
+
+Lemma step_match : forall M l s e s1 o, pend_inv l s -> step M s e = (s1, o) ->
+  entry_ok l (e, o) /\ pend_inv (l ++ [(e, o)]) s1.
+Proof.
+  intros M l s e s1 o Hinv H.
+  assert (Hkeep : pending s1 = pending s -> pend_inv (l ++ [(e, o)]) s1).
+  { intros Hp sq rq Hin. rewrite Hp in Hin. apply sent_in_mono. now apply Hinv. }
+  assert (Hacc : forall rq, is_req e = Some rq -> failed s = None ->
+            step M s e = handle_request M (add_waiting s rq) rq ->
+            entry_ok l (e, o) /\ pend_inv (l ++ [(e, o)]) s1).
+  { intros rq Hr F Hs. rewrite Hs, accept_step in H by exact F. inversion H; subst s1 o. split.
+    - intros id r [Hin|[]] _. discriminate.
+    - intros sq rq' Hin. cbn [pending] in Hin. destruct Hin as [Hin|Hin].
+      + inversion Hin; subst. exists e, [Sent (req_msg (next_seq M (seq s)) rq')].
+        repeat split; [apply in_app_iff; right; now left | exact Hr | now left].
+      + apply in_remove_key in Hin. apply sent_in_mono. apply Hinv. tauto. }
+  destruct e as [rq|rq|sq ty sz d|c|id]; cbn [step] in H.
+  - destruct (failed s) as [c|] eqn:F.
+    + inversion H; subst s1 o. split; [|now apply Hkeep].
+      intros id r [Hin|[]] Hl. inversion Hin; subst. exfalso. eapply local_not_nonlocal; eauto.
+    + apply (Hacc rq eq_refl eq_refl). cbn [step]. now rewrite F.
+  - destruct (failed s) as [c|] eqn:F.
+    + inversion H; subst s1 o. split; [intros id r [] | now apply Hkeep].
+    + apply (Hacc rq eq_refl eq_refl). cbn [step]. now rewrite F.
+  - destruct (failed s) as [c|] eqn:F.
+    + inversion H; subst s1 o. split; [intros id r [] | now apply Hkeep].
+    + unfold handle_response in H. destruct (lookup sq (pending s)) as [rq|] eqn:L.
+      * rewrite F in H. destruct (deliver (waiting s) rq (op_result rq ty sz d)) as [w o'] eqn:E. inversion H; subst s1 o.
+        split.
+        -- intros id r Hin Hl. cbn [snd] in Hin. apply deliver_cases in E.
+           destruct E as [(_ & _ & ->)|(_ & _ & ->)]; destruct Hin as [Hin|[]]; [|discriminate].
+           inversion Hin; subst. exists sq, ty, sz, d, rq. repeat split. apply Hinv. now apply lookup_in.
+        -- intros sq' rq' Hin. cbn [pending] in Hin. apply in_remove_key in Hin. apply sent_in_mono. apply Hinv. tauto.
+      * inversion H; subst s1 o. split; [|now apply Hkeep]. intros id r [Hin|[]] _. discriminate.
+  - destruct (failed s) as [c'|] eqn:F.
+    + inversion H; subst s1 o. split; [intros id r [] | now apply Hkeep].
+    + unfold handle_transport in H. destruct (reply_all c (pending s) (waiting s)) as [w o'] eqn:E. inversion H; subst s1 o.
+      split.
+      * intros id r [Hin|Hin] Hl; [discriminate|]. cbn [snd] in Hin.
+        pose proof (reply_all_local _ _ _ _ _ E id r Hin) as Hr. unfold is_local in Hl. rewrite Hr in Hl. discriminate.
+      * intros sq rq [].
+  - destruct (find_wait id (waiting s)) as [rq|] eqn:E.
+    + inversion H; subst s1 o. split; [|now apply Hkeep].
+      intros id' r [Hin|[]] Hl. inversion Hin; subst. exfalso. eapply local_not_nonlocal; eauto.
+    + inversion H; subst s1 o. split; [intros id' r [] | now apply Hkeep].
+Qed.
+
+Lemma exec_match : forall M es s l, log_ok l -> pend_inv l s -> log_ok (l ++ exec M s es).
+Proof.
+  induction es as [|e es IH]; intros s l Hl Hp.
+  - cbn. now rewrite app_nil_r.
+  - cbn [exec]. destruct (step M s e) as [s1 o] eqn:E.
+    destruct (step_match _ _ _ _ _ _ Hp E) as [H1 H2].
+    change ((e, o) :: exec M s1 es) with ([(e, o)] ++ exec M s1 es). rewrite app_assoc.
+    apply IH; [now apply log_ok_snoc | exact H2].
+Qed.
+
+Theorem matching : forall M es, log_ok (exec M init es).
+Proof.
+  intros M es. change (exec M init es) with ([] ++ exec M init es). apply exec_match.
+  - intros pre x post H. destruct pre; discriminate.
+  - intros sq rq [].
+Qed.
+
+(** ** the guard: sequence numbers identify waiting callers *)
+
+(** while the connection has not failed: one pending entry per number, and every blocked caller owns one *)
+Definition uniq_inv (s : st) : Prop :=
+  failed s = None ->
+  NoDup (map fst (pending s)) /\ forall rq, In rq (waiting s) -> exists sq, In (sq, rq) (pending s).
+
+Definition guard1 (M : N) (s : st) (e : event) : bool :=
+  match is_req e, failed s with
+  | Some _, None => match lookup (next_seq M (seq s)) (pending s) with None => true | Some _ => false end
+  | _, _ => true
+  end.
+
+Lemma guard_cons : forall M s e es, guard M s (e :: es) = guard1 M s e && guard M (fst (step M s e)) es.
+Proof. reflexivity. Qed.
+
+Lemma step_uniq : forall M s e, uniq_inv s -> guard1 M s e = true -> uniq_inv (fst (step M s e)).
+Proof.
+  intros M s e Hu Hg.
+  assert (Hacc : forall rq, is_req e = Some rq -> failed s = None ->
+            step M s e = handle_request M (add_waiting s rq) rq -> uniq_inv (fst (step M s e))).
+  { intros rq Hr F Hs. rewrite Hs, accept_step by exact F. cbn [fst]. intros _. cbn [pending waiting].
+    unfold guard1 in Hg. rewrite Hr, F in Hg.
+    destruct (lookup (next_seq M (seq s)) (pending s)) eqn:L; [discriminate|].
+    destruct (Hu F) as [U1 U2]. rewrite remove_key_absent by exact L. split.
+    - cbn [map fst]. constructor; [now apply lookup_none | exact U1].
+    - intros rq' [<-|Hin]; [exists (next_seq M (seq s)); now left|].
+      destruct (U2 rq' Hin) as [sq Hsq]. exists sq. now right. }
+  destruct e as [rq|rq|sq ty sz d|c|id]; cbn [step].
+  - destruct (failed s) as [c|] eqn:F.
+    + cbn [fst]. exact Hu.
+    + specialize (Hacc rq eq_refl eq_refl). cbn [step] in Hacc. rewrite F in Hacc. now apply Hacc.
+  - destruct (failed s) as [c|] eqn:F.
+    + cbn [fst]. intro F'. unfold add_waiting in F'. cbn [failed] in F'. congruence.
+    + specialize (Hacc rq eq_refl eq_refl). cbn [step] in Hacc. rewrite F in Hacc. now apply Hacc.
+  - destruct (failed s) as [c|] eqn:F.
+    + cbn [fst]. exact Hu.
+    + destruct (Hu F) as [U1 U2]. unfold handle_response. destruct (lookup sq (pending s)) as [rq0|] eqn:L.
+      * rewrite F. destruct (deliver (waiting s) rq0 (op_result rq0 ty sz d)) as [w o'] eqn:E. cbn [fst].
+        intros _. cbn [pending waiting]. split; [now apply nodup_remove_key|].
+        intros rq Hin. apply deliver_cases in E.
+        assert (Hw : In rq (waiting s) /\ (rq = rq0 -> False)).
+        { destruct E as [(_ & -> & _)|(Hf & -> & _)].
+          - apply in_rm_wait in Hin. split; [tauto|]. intros ->. tauto.
+          - split; [exact Hin|]. intros ->. exact (find_wait_in _ _ Hin Hf). }
+        destruct Hw as [Hw Hne]. destruct (U2 rq Hw) as [sq' Hsq']. exists sq'. apply in_remove_key. split; [exact Hsq'|].
+        intros ->. apply Hne. eapply nodup_key_unique; eauto. now apply lookup_in.
+      * cbn [fst]. exact Hu.
+  - destruct (failed s) as [c'|] eqn:F.
+    + cbn [fst]. exact Hu.
+    + unfold handle_transport. destruct (reply_all c (pending s) (waiting s)) as [w o']. cbn [fst].
+      intro F'. cbn [failed] in F'. discriminate.
+  - destruct (find_wait id (waiting s)) as [rq|] eqn:E; cbn [fst]; [|exact Hu].
+    intro F'. cbn [failed] in F'. destruct (Hu F') as [U1 U2]. cbn [pending waiting]. split; [exact U1|].
+    intros rq' Hin. apply in_rm_wait in Hin. apply U2. tauto.
+Qed.
+
+Lemma run_uniq : forall M es s, uniq_inv s -> guard M s es = true -> uniq_inv (run M s es).
+Proof.
+  induction es as [|e es IH]; intros s Hu Hg; [exact Hu|].
+  rewrite guard_cons in Hg. apply andb_true_iff in Hg. destruct Hg as [G1 G2].
+  cbn [run]. apply IH; [now apply step_uniq | exact G2].
+Qed.
+
+Lemma uniq_init : uniq_inv init.
+Proof. intros _. split; [constructor | intros rq []]. Qed.
+
+Theorem no_orphan : forall M es, guard M init es = true -> uniq_inv (run M init es).
+Proof. intros M es H. apply run_uniq; [apply uniq_init | exact H]. Qed.
+
+(** the guard holds when fewer than M requests are issued on the connection *)
+Lemma guard_of_count_gen : forall M es s,
+  (forall sq, In sq (map fst (pending s)) -> sq <= seq s) ->
+  seq s + N.of_nat (count_reqs es) < M ->
+  guard M s es = true.
+Proof.
+  induction es as [|e es IH]; intros s Hk Hc; [reflexivity|].
+  rewrite guard_cons. cbn [count_reqs] in Hc.
+  assert (Hacc : forall rq, is_req e = Some rq -> failed s = None ->
+            step M s e = handle_request M (add_waiting s rq) rq ->
+            guard1 M s e && guard M (fst (step M s e)) es = true).
+  { intros rq Hr F Hs. rewrite Hr in Hc.
+    assert (Hn : next_seq M (seq s) = seq s + 1) by (unfold next_seq; apply N.mod_small; lia).
+    apply andb_true_iff. split.
+    - unfold guard1. rewrite Hr, F, Hn.
+      destruct (lookup (seq s + 1) (pending s)) eqn:L; [|reflexivity].
+      apply lookup_in in L. assert (In (seq s + 1) (map fst (pending s))).
+      { apply in_map_iff. eexists; split; [|exact L]. reflexivity. }
+      apply Hk in H. lia.
+    - rewrite Hs, accept_step by exact F. cbn [fst]. apply IH; cbn [seq pending].
+      + intros sq Hin. cbn [map fst] in Hin. rewrite Hn. destruct Hin as [<-|Hin]; [lia|].
+        apply keys_remove_key in Hin. destruct Hin as [Hin _]. apply Hk in Hin. lia.
+      + rewrite Hn. lia. }
+  assert (Hsame : forall s1, seq s1 = seq s -> (forall sq, In sq (map fst (pending s1)) -> In sq (map fst (pending s))) ->
+            guard M s1 es = true).
+  { intros s1 Hs Hp. apply IH; [intros sq Hin; rewrite Hs; apply Hk, Hp, Hin | rewrite Hs; lia]. }
+  destruct e as [rq|rq|sq ty sz d|c|id]; cbn [step].
+  - destruct (failed s) as [c|] eqn:F.
+    + cbn [fst]. unfold guard1. cbn [is_req]. rewrite F. cbn [andb]. apply Hsame; auto.
+    + specialize (Hacc rq eq_refl eq_refl). cbn [step] in Hacc. rewrite F in Hacc. now apply Hacc.
+  - destruct (failed s) as [c|] eqn:F.
+    + cbn [fst]. unfold guard1. cbn [is_req]. rewrite F. cbn [andb]. apply Hsame; auto.
+    + specialize (Hacc rq eq_refl eq_refl). cbn [step] in Hacc. rewrite F in Hacc. now apply Hacc.
+  - unfold guard1. cbn [is_req andb]. destruct (failed s) as [c|] eqn:F; [apply Hsame; auto|].
+    unfold handle_response. destruct (lookup sq (pending s)) as [rq0|] eqn:L; [|apply Hsame; auto].
+    rewrite F. destruct (deliver (waiting s) rq0 (op_result rq0 ty sz d)) as [w o']. cbn [fst].
+    apply Hsame; [reflexivity|]. cbn [pending]. intros k Hin. apply keys_remove_key in Hin. tauto.
+  - unfold guard1. cbn [is_req andb]. destruct (failed s) as [c'|] eqn:F; [apply Hsame; auto|].
+    unfold handle_transport. destruct (reply_all c (pending s) (waiting s)) as [w o']. cbn [fst].
+    apply Hsame; [reflexivity|]. cbn [pending]. intros k [].
+  - unfold guard1. cbn [is_req andb]. destruct (find_wait id (waiting s)); cbn [fst]; apply Hsame; auto.
+Qed.
+
+Theorem guard_of_count : forall M es, N.of_nat (count_reqs es) < M -> guard M init es = true.
+Proof.
+  intros M es H. apply guard_of_count_gen; [intros sq [] | exact H].
+Qed.
+
+(** ** failure: everybody is released, nobody is accepted any more *)
+
+Lemma failed_sticky_step : forall M s e c, failed s = Some c ->
+  failed (fst (step M s e)) = Some c /\ pending (fst (step M s e)) = pending s.
+Proof.
+  intros M s e c F. destruct e as [rq|rq|sq ty sz d|c'|id]; cbn [step]; rewrite ?F; cbn [fst]; auto.
+  destruct (find_wait id (waiting s)); cbn [fst failed pending]; auto.
+Qed.
+
+Lemma failed_sticky : forall M es s c, failed s = Some c -> failed (run M s es) = Some c.
+Proof.
+  induction es as [|e es IH]; intros s c F; [exact F|]. cbn [run]. apply IH. now apply failed_sticky_step.
+Qed.
+
+Theorem later_requests_fail : forall M es s c rq, failed s = Some c ->
+  step M (run M s es) (Req rq) = (run M s es, [Done (rid rq) (local_result rq c)]).
+Proof.
+  intros M es s c rq F. cbn [step]. now rewrite (failed_sticky M es s c F).
+Qed.
+
+Theorem fail_all_step : forall M s c, uniq_inv s -> failed s = None ->
+  forall s1 o, step M s (TransportErr c) = (s1, o) ->
+  (forall rq, In rq (waiting s) -> exists r, In (Done (rid rq) r) o /\ r_err r = ELocal c) /\
+  (forall id r, In (Done id r) o -> r_err r = ELocal c) /\
+  In Closed o /\ waiting s1 = [] /\ pending s1 = [] /\ failed s1 = Some c.
+Proof.
+  intros M s c Hu F s1 o H. cbn [step] in H. rewrite F in H. unfold handle_transport in H.
+  destruct (reply_all c (pending s) (waiting s)) as [w o'] eqn:E. inversion H; subst s1 o. clear H.
+  destruct (Hu F) as [U1 U2]. destruct (reply_all_covers _ _ _ _ _ E) as [R1 R2].
+  split; [|split; [|split; [|split; [|split]]]].
+  - intros rq Hin. destruct (U2 rq Hin) as [sq Hsq].
+    destruct (R1 rq Hin (ex_intro _ sq (ex_intro _ rq (conj Hsq eq_refl)))) as [r [Hr1 Hr2]].
+    exists r. split; [now right | exact Hr2].
+  - intros id r [Hin|Hin]; [discriminate|]. eapply reply_all_local; eauto.
+  - now left.
+  - cbn [waiting]. destruct w as [|rq w]; [reflexivity|]. exfalso.
+    pose proof (reply_all_ok _ _ _ _ _ E) as (_ & _ & [Hsub _] & _).
+    assert (Hin : In rq (waiting s)) by (apply Hsub; now left).
+    destruct (U2 rq Hin) as [sq Hsq]. exact (R2 rq (or_introl eq_refl) sq rq Hsq eq_refl).
+  - reflexivity.
+  - reflexivity.
+Qed.
+
+(** a caller whose timer fires returns the timeout error and calls SetError *)
+Theorem timeout_step : forall M s rq, In rq (waiting s) -> NoDup (wids (waiting s)) ->
+  step M s (Timeout (rid rq)) =
+  (mkst (seq s) (pending s) (failed s) (rm_wait (rid rq) (waiting s)) (errq s + 1),
+   [Done (rid rq) (local_result rq (timeout_err (rkind rq)))]).
+Proof.
+  intros M s rq Hin Hnd. cbn [step].
+  destruct (find_wait (rid rq) (waiting s)) as [rq'|] eqn:E; [|exfalso; exact (find_wait_in _ _ Hin E)].
+  destruct (find_wait_some _ _ _ E) as [Hin' Hid].
+  assert (rq' = rq); [|subst; reflexivity].
+  clear E. induction (waiting s) as [|x w IH]; [destruct Hin|].
+  cbn [wids map] in Hnd. inversion Hnd as [|? ? Hx Hw]; subst.
+  destruct Hin as [->|Hin], Hin' as [->|Hin'].
+  - reflexivity.
+  - exfalso. apply Hx. rewrite <- Hid. now apply in_map.
+  - exfalso. apply Hx. rewrite Hid. now apply in_map.
+  - now apply IH.
+Qed.
+
+(** a raced request is released by its own timer only *)
+Theorem raced_released_by_timeout : forall M s c rq, failed s = Some c -> ~ In (rid rq) (wids (waiting s)) ->
+  let s1 := fst (step M s (ReqRaced rq)) in
+  snd (step M s (ReqRaced rq)) = [] /\
+  step M s1 (Timeout (rid rq)) =
+    (mkst (seq s) (pending s) (failed s) (rm_wait (rid rq) (waiting s)) (errq s + 1),
+     [Done (rid rq) (local_result rq (timeout_err (rkind rq)))]).
+Proof.
+  intros M s c rq F Hfresh. cbn [step]. rewrite F. cbn [fst snd]. split; [reflexivity|].
+  unfold add_waiting. cbn [step waiting find_wait]. rewrite N.eqb_refl.
+  cbn [seq pending failed errq waiting rm_wait]. rewrite N.eqb_refl, ?F. reflexivity.
+Qed.
+
+(** ** exec / run over concatenations *)
+
+Lemma exec_app : forall M a s b, exec M s (a ++ b) = exec M s a ++ exec M (run M s a) b.
+Proof.
+  induction a as [|e a IH]; intros s b; [reflexivity|].
+  cbn [app exec run]. destruct (step M s e) as [s1 o]. cbn [fst]. now rewrite IH.
+Qed.
+
+Lemma run_app : forall M a s b, run M s (a ++ b) = run M (run M s a) b.
+Proof. induction a as [|e a IH]; intros s b; [reflexivity|]. cbn [app run]. apply IH. Qed.
+
+Lemma guard_app : forall M a s b, guard M s (a ++ b) = guard M s a && guard M (run M s a) b.
+Proof.
+  induction a as [|e a IH]; intros s b; [reflexivity|].
+  cbn [app]. rewrite !guard_cons. cbn [run]. rewrite IH. now rewrite andb_assoc.
+Qed.
+
+Lemma waiting_nodup_run : forall M es s, NoDup (req_ids es) -> NoDup (wids (waiting s)) ->
+  (forall id, In id (req_ids es) -> ~ In id (wids (waiting s))) -> NoDup (wids (waiting (run M s es))).
+Proof.
+  induction es as [|e es IH]; intros s Hnd Hw Hfresh; [exact Hw|].
+  cbn [run]. destruct (step M s e) as [s1 o] eqn:E. cbn [fst]. rewrite new_ids_req_ids in Hnd, Hfresh.
+  assert (Hf1 : forall id, In id (new_ids e) -> ~ In id (wids (waiting s))).
+  { intros x Hx. apply (Hfresh x). apply in_app_iff. now left. }
+  destruct (step_callers _ _ _ _ _ E Hf1) as (C1 & C2 & C3 & C4 & C5).
+  assert (Hsplit : NoDup (req_ids es) /\ forall x, In x (new_ids e) -> ~ In x (req_ids es)).
+  { clear -Hnd. induction (new_ids e) as [|x l IHl]; cbn [app] in *; [split; [exact Hnd | intros x []]|].
+    inversion Hnd as [|? ? Hx Hl]; subst. destruct (IHl Hl) as (I2 & I3). split; [exact I2|].
+    intros y [->|Hy]; [intro Hin; apply Hx, in_app_iff; now right | now apply I3]. }
+  destruct Hsplit as [N2 N3].
+  apply IH; [exact N2 | now apply C4|].
+  intros x Hx Hw1. apply C3 in Hw1. destruct Hw1 as [Hw1|Hw1].
+  - apply (Hfresh x); [apply in_app_iff; now right | exact Hw1].
+  - exact (N3 x Hw1 Hx).
+Qed.
+
+(** when the connection fails, every call issued so far has returned after that one step *)
+Theorem fail_all_complete : forall M es c, NoDup (req_ids es) -> guard M init es = true ->
+  failed (run M init es) = None ->
+  forall id, In id (req_ids es) -> In id (done_ids (outs (exec M init (es ++ [TransportErr c])))).
+Proof.
+  intros M es c Hnd Hg F id Hin.
+  rewrite exec_app, outs_app, done_ids_app, in_app_iff.
+  destruct (accounted_gen M es init Hnd (fun _ _ H => H) id (or_intror Hin)) as [Hw|Hd]; [|now left].
+  right. cbn [exec]. destruct (step M (run M init es) (TransportErr c)) as [s1 o] eqn:E.
+  unfold outs. cbn [flat_map snd]. rewrite app_nil_r.
+  destruct (fail_all_step M _ c (no_orphan M es Hg) F s1 o E) as (H1 & _).
+  unfold wids in Hw. apply in_map_iff in Hw. destruct Hw as [rq [Hid Hrq]]. subst id.
+  destruct (H1 rq Hrq) as [r [Hr _]]. apply in_done_ids. now exists r.
+Qed.
